@@ -260,7 +260,7 @@ def option_tuple(rnd, tables):
 def jobs(tier, seed):
     J = []
     for fid in corpus.ids():
-        J.append(dict(kind="font", name=fid, fid=fid, seed=subseed(seed, fid), n=(8 if tier == "thorough" else 1)))
+        J.append(dict(kind="font", name=fid, fid=fid, seed=subseed(seed, fid), n=(24 if tier == "thorough" else 1)))
         if fid.startswith("gen:") and corpus.gen_spec(fid).get("weird_names") and "glyf" in corpus.entry(fid)["tables"]:
             # glyph names that collide as file names: always also dumped one file per glyph
             J.append(dict(kind="font", name=fid + ":splitGlyphs", fid=fid, seed=subseed(seed, fid, "split"), n=1, force={"splitGlyphs": True}))
